@@ -119,6 +119,8 @@ class C16(Prop):
                     sig += ':head_in_no_equation'      # the known finding: a junction whose head no equation mentions
                 viol.append(V('faultfree.raised', sig, ('junctions whose head is in no equation: %r | ' % (und,) if und else '') + ref.exc_tb[-600:]))
             return verdict('violation', viol, c, rec0.digest(), sample=world.summary(scn))
+        if rec0.n_solver_calls > 600:
+            return verdict('discard', [], c, rec0.digest(), discard='too_many_solves_for_an_enumeration', sample=world.summary(scn))
         res0 = ref.results
         accepted = [s['t'] for s in rec0.steps]
         sim_seconds += accepted[-1] if accepted else 0
@@ -212,7 +214,7 @@ class C16(Prop):
                 bump(c, 'trials.not_exceeded')
                 # nothing exceeded: must equal the reference fully
                 viol += oracles.tables_wellformed(out.results, scn, expect_times=list(ref.results.node['head'].index))
-                viol += oracles.compare_tables(out.results, ref.results, list(ref.results.node['head'].index), label='trials.ok')
+                viol += oracles.compare_tables(out.results, ref.results, list(ref.results.node['head'].index), label='trials.ok', keys=oracles.SLACK_KEYS, col_atol=oracles.flow_col_atol(scn, ref.results, list(ref.results.node['head'].index)))
                 return viol
             bump(c, 'fired.trials.exceeded')
             if ce:
@@ -263,7 +265,7 @@ class C16(Prop):
                 viol += oracles.tables_wellformed(out.results, scn, accepted_times=[s_['t'] for s_ in rec.steps])
                 before = [t_ for t_ in full if t_ < mine[k]['t']]
                 if not viol and before:
-                    viol += oracles.compare_tables(out.results, ref.results, before, label='rescued.prefix')
+                    viol += oracles.compare_tables(out.results, ref.results, before, label='rescued.prefix', keys=oracles.SLACK_KEYS, col_atol=oracles.flow_col_atol(scn, ref.results, before))
                 return viol
             viol += oracles.tables_wellformed(out.results, scn, expect_times=full)
             if not viol:
@@ -291,7 +293,9 @@ class C16(Prop):
         want = [t for t in full if t < t_fail]
         viol += oracles.tables_wellformed(res, scn, expect_times=want)
         if not viol:
-            viol += oracles.compare_tables(res, ref.results, want, label='prefix')
+            # same trajectory up to the failure: equal up to the evaluator's allocator noise, which an ill-conditioned flow split (parallel pipes,
+            # loops of fat pipes) amplifies - flows carry the per-link conditioning slack; velocity (= flow / area) is not compared separately
+            viol += oracles.compare_tables(res, ref.results, want, label='prefix', keys=oracles.SLACK_KEYS, col_atol=oracles.flow_col_atol(scn, ref.results, want))
         # the failed run must not have solved anything after the failure
         after = [s for s in out.rec.steps if s['t'] >= t_fail]
         if after:
